@@ -500,7 +500,6 @@ func (bh *Header) AddReference(r *Reference) error {
 		if r.uri != nil {
 			er.uri = r.uri
 		}
-		er.otherTags = nil
 		return nil
 	}
 	if r.owner != nil || r.id >= 0 {
